@@ -151,7 +151,31 @@ def request_isolation(repo: Repo, run: Run) -> None:
     run.floor("R0", "table-reset obligations taken over from C02", n, 3)
 
 
+def _take_over(run, mod_name: str, prop: str, repo, select, rule: str, label: str, why: str, floor: int) -> None:
+    """Obligations of another check that are necessary conditions here as well (judged there, reported here too)."""
+    import importlib
+    from ..model import AnalysisError as _AE
+    other = importlib.import_module(f"vstatic.rules.{mod_name}")
+    probe = Run(prop, run.tier, run.repo_root)
+    probe.is_probe = True           # (a check run for its obligations only: it does not take over from others in turn)
+    try:
+        other.check(repo, probe)
+    except _AE:
+        pass            # the floor below fails if the obligations were not reached
+    n = 0
+    for o in probe.obligations:
+        if select(o):
+            n += 1
+            run.ob(rule, o["module"], o["scope"], f"{label} ({prop}/{o['rule']}): {o['construct']}", o["ok"],
+                   (o.get("what", "") + " - " + why) if not o["ok"] else "", nontrivial=False)
+    run.floor(rule, f"{label}: obligations taken over from {prop}", n, floor)
+
+
 def check(repo: Repo, run: Run) -> None:
+    _take_over(run, "c14", "C14", repo, lambda o: o["rule"] == "R4" and o["construct"].startswith("writer of the thread/process tables"), "R0",
+               "table writers", "a decoder outside the classes every request reads (trace strings, and file-system lookups with "
+               "BSD) that writes the shared thread/process tables makes the process filter and the rendered text depend on "
+               "which classes were requested", 6)
     request_isolation(repo, run)
     # a filter removes records of other classes BEFORE pairing: the traces of the remaining calls stay the same only if what
     # a window does with a record never depends on how many or which other records it holds (C04: unconditional appends)
